@@ -37,6 +37,19 @@ def check_renderings(it, fn, a):
         ref = R.parse(r)
         if ref != tree:
             bad.append((r, "REFERENCE TOKENIZER DISAGREES WITH THE RENDERER", ref))
+        if "<![CDATA[" in r:
+            # whitespace is whitespace: the same rendering with the blanks next to the CDATA sections replaced by white space
+            # outside ASCII (no-break space, line separator, ideographic space) - what str.strip() trims, the tokenizer skips
+            v = r
+            for ws in (" \r\n  ", "\n"):
+                v = v.replace(ws + "<![CDATA[", "\u00a0\u2028<![CDATA[").replace("]]>" + ws, "]]>\u00a0\u3000")
+            if v != r and R.parse(v) == tree:
+                try:
+                    got = lib_parse(v)
+                except Exception as ex:
+                    got = f"{type(ex).__name__}: {ex}"
+                if got != tree:
+                    bad.append((v, got))
     return bad
 
 
@@ -57,6 +70,12 @@ def cases_c02(tier):
     # the tag OFX is a tag like any other: below a root of another name, as aggregate and as data element
     out += [[t, False] for t in R.trees(4 if tier == "thorough" else 3, agg_tags=("WRAP", "OFX"), leaf_tags=("OFX", "B1"), datas=("x",)) if not leaf_named_like_parent(t)]
     out += [[("WRAP", [("B1", "x"), ("OFX", [("B1", "y")]), ("B1", "z")]), True]]
+    # tag names are as long as the institution likes (nothing in the tokenizer's pattern bounds them): 32, 33 and 70 characters,
+    # as aggregates and as data elements
+    LONG = ["L" * 32, "M" * 33, "INTU." + "N" * 65]
+    for lt in LONG:
+        out += [[("A", [(lt, [("B1", "x")]), ("B1", "y")]), True], [("A", [(lt, "x"), ("B1", "y")]), True], [(lt, [("B1", "x"), ("AG", [])]), False],
+                [("A", [("AG", [(lt, [(lt[:-1] + "X", "v")])])]), False]]
     nested = [("A", [("A", [("B1", "x")])]), ("A", [("AG", [("A", [("B1", "x")]), ("B1", "y")])]), ("A", [("A", [("A", [])])]), ("A", [("A", []), ("B1", "x"), ("A", [("B1", "y")])])]
     out += [[t, True] for t in nested]
     return out
